@@ -79,6 +79,12 @@ func (c *memConn) feed(b []byte) {
 	c.mu.Unlock()
 }
 
+// errMarker, fed as a segment, makes the Read that reaches it return errTransient (a read error of the underlying
+// connection at that point of the stream).
+var errMarker = []byte{0xEE}
+
+func (c *memConn) feedReadError() { c.feed(errMarker) }
+
 func (c *memConn) feedEOF() {
 	c.mu.Lock()
 	c.eof = true
@@ -115,6 +121,10 @@ func (c *memConn) Read(p []byte) (int, error) {
 				return 0, nil
 			}
 			h := c.in[0]
+			if len(h) == 1 && &h[0] == &errMarker[0] {
+				c.in = c.in[1:]
+				return 0, errTransient
+			}
 			if c.rfAfter > 0 && len(p) > c.rfAfter {
 				p = p[:c.rfAfter]
 			}
